@@ -47,6 +47,15 @@ func checkDepCase(c DepCase, r *Recorder) error {
 	if err := compareDepToAST(dep, c.AST); err != nil {
 		return errf("Parse(%q): %v", c.Text, err)
 	}
+	// results are the caller's: scribbling over one must not show up in a later parse of the same text
+	scribbleDep(dep)
+	again, err := dependency.Parse(c.Text)
+	if err != nil {
+		return errf("second Parse(%q) failed: %v", c.Text, err)
+	}
+	if err := compareDepToAST(again, c.AST); err != nil {
+		return errf("Parse(%q) after the caller modified an earlier result for the same text: %v", c.Text, err)
+	}
 	var viaControl dependency.Dependency
 	if err := viaControl.UnmarshalControl(c.Text); err != nil {
 		return errf("UnmarshalControl(%q) rejected a well-formed field: %v", c.Text, err)
@@ -417,6 +426,37 @@ func TestC04_DpkgGuardExt(t *testing.T) {
 				t.Logf("  rejected by dpkg: %q", c.Text)
 				break
 			}
+		}
+	}
+}
+
+// scribbleDep overwrites everything reachable from a parsed dependency.
+func scribbleDep(d *dependency.Dependency) {
+	for i := range d.Relations {
+		ps := d.Relations[i].Possibilities
+		for j := range ps {
+			ps[j].Name = "scribbled"
+			ps[j].Substvar = !ps[j].Substvar
+			if ps[j].Version != nil {
+				ps[j].Version.Number, ps[j].Version.Operator = "6.6.6", "<<"
+			}
+			if ps[j].Arch != nil {
+				ps[j].Arch.CPU = "scribbled"
+			}
+			if ps[j].Architectures != nil {
+				ps[j].Architectures.Not = !ps[j].Architectures.Not
+				for k := range ps[j].Architectures.Architectures {
+					ps[j].Architectures.Architectures[k].CPU = "scribbled"
+				}
+			}
+			for g := range ps[j].StageSets {
+				for k := range ps[j].StageSets[g].Stages {
+					ps[j].StageSets[g].Stages[k].Name = "scribbled"
+				}
+			}
+		}
+		if len(ps) > 1 {
+			d.Relations[i].Possibilities = ps[:1]
 		}
 	}
 }
